@@ -261,8 +261,15 @@ func (incr *incremental[Obj]) commitStatus() (numErrors int) {
 			// The limitation of this approach is that we cannot support the reconciler
 			// modifying the object during reconciliation as the following will forget
 			// the changes.
+			//
+			// A retried object is still in the error state this reconciler left it in
+			// (a change to the object itself would have made it pending again), so there
+			// too only some other status has changed and the outcome of the retry must
+			// not be dropped: the object would keep its stale error status and, as it is
+			// no longer queued, never be retried again.
 			currentStatus := incr.config.GetObjectStatus(current)
-			if currentStatus.Kind == StatusKindPending && currentStatus.ID == result.id {
+			if (currentStatus.Kind == StatusKindPending && currentStatus.ID == result.id) ||
+				currentStatus.Kind == StatusKindError {
 				current = incr.config.CloneObject(current)
 				current = incr.config.SetObjectStatus(current, status)
 				_, _, err = incr.table.Insert(wtxn, current)
